@@ -293,6 +293,18 @@ def run(c, chk):
     # R2.15: a cached pointer into a reallocatable option table is read after the table moved (use after free driven by the input)
     from . import c07 as _c07t
     _c07t.table_pointers_not_kept(c, chk, rid='R2.15')
+    if not isinstance(chk, report.SubCheck):
+        # R2.16: a text that ends inside a comment or string must not leave the scanner there: the next text - the default of a
+        # list option inside cfg_init() included - would be swallowed (and cfg_init() aborts on an unparsable default)
+        from . import c08 as _c08s, c17 as _c17s
+        chk.rule('R2.16', 'every scan begins in the initial start condition (rule R8.1 of C08)')
+        sub8 = report.SubCheck(chk, 'R2.16', 'C08', only=('R8.1',))
+        _c08s.run(c, sub8)
+        sub8.done('scanner start state')
+        chk.rule('R2.17', 'file-name buffers are sized for what is copied into them and terminated inside their bounds (rules R17.4, R17.5, R17.7 of C17): a long ~user name or directory cannot overrun one')
+        sub17 = report.SubCheck(chk, 'R2.17', 'C17', only=('R17.4', 'R17.5', 'R17.7'))
+        _c17s.run(c, sub17)
+        sub17.done('file-name buffers')
 
     # ---- R2.7: the parse loop never releases the same object twice / keeps a released one ----
     chk.rule('R2.7', 'the parser loop never keeps a pointer it has released for a later iteration (no double free / use after free on input)')
